@@ -149,6 +149,14 @@ func c04R1(h H) {
 					if isResultOf(v, 0, "strings.Split") {
 						return true
 					}
+					if lk, ok := v.(*ssa.Lookup); ok {
+						k, isK := constString(lk.Index)
+						return isK && k == "Connection" && strings.HasSuffix(lk.X.Type().String(), "http.Header")
+					}
+					if cc, ok := v.(*ssa.Call); ok && calleeName(&cc.Call) == "(net/http.Header).Values" {
+						k, isK := constString(cc.Call.Args[1])
+						return isK && k == "Connection"
+					}
 					if cc, ok := v.(*ssa.Call); ok && calleeName(&cc.Call) == "(net/http.Header).Get" {
 						k, isK := constString(cc.Call.Args[1])
 						return isK && k == "Connection"
